@@ -98,6 +98,31 @@ def run(chk):
             if not (abs(s_after - s_fresh) <= 1e-9 * max(1.0, abs(s_fresh)) and np.allclose(x_after, x_fresh, rtol=1e-9, atol=1e-12)):
                 chk.fail("%s: after the machine was trained further (it had scored before) score / estimate_x differ from those of a fresh machine with the same U, V, D: %.12g vs %.12g"
                          % (kind, s_after, s_fresh), dict(ctx, history="score, fit, score"))
+        # probe statistics stored in single precision, and hard-assignment statistics with integer-typed counts and sums: scored as the same
+        # values in float64 (bit for bit: every such value is exact in binary64)
+        if i % 4 == 1:
+            import copy as _cp
+            for how_ in ("float32", "int64"):
+                pn_, p64_ = [], []
+                # (single precision: one statistic only - pooling two float32 statistics adds them in float32, which is rounding in the storage
+                #  type, not a property of scoring)
+                for q_ in (probe[:1] if how_ == "float32" else probe):
+                    a_, b_ = _cp.copy(q_), _cp.copy(q_)
+                    if how_ == "float32":
+                        a_.n, a_.sum_px = np.asarray(q_.n, dtype=np.float32), np.asarray(q_.sum_px, dtype=np.float32)
+                    else:
+                        a_.n, a_.sum_px = np.rint(np.asarray(q_.n)).astype(np.int64), np.rint(np.asarray(q_.sum_px) * 4).astype(np.int64)
+                    b_.n, b_.sum_px = np.asarray(a_.n, dtype=np.float64), np.asarray(a_.sum_px, dtype=np.float64)
+                    a_.sum_pxx = b_.sum_pxx = np.asarray(q_.sum_pxx, dtype=float)
+                    pn_.append(a_)
+                    p64_.append(b_)
+                try:
+                    s_n, s_64 = float(m.score(model, pn_)), float(m.score(model, p64_))
+                    chk.count(1, key=("probe statistics dtype", how_, kind))
+                    if not abs(s_n - s_64) <= 1e-13 * max(1.0, abs(s_64)):
+                        chk.fail("%s: a probe whose statistics are stored as %s scores %.17g, the same values in float64 %.17g" % (kind, how_, s_n, s_64), dict(ctx, probe_dtype=how_))
+                except Exception as e:
+                    chk.fail("%s: scoring a probe whose statistics are stored as %s raises %r" % (kind, how_, e), dict(ctx, probe_dtype=how_))
         # the probe as another kind of sequence than a list: the same statistics, the same score
         if nprobe > 1:
             try:
